@@ -8,7 +8,7 @@ package schedule
 
 //@ # a slice of usable cores: non-nil records with positive pieces
 //@ pred okCores(cores []*cpuCore) = (arr(cores) == 0 || allocated(cores)) && forall k :: 0 <= k && k < len(cores) ==>
-//@        cores[k] != nil && allocated(cores[k]) && cores[k].pieces >= 1 && cores[k].pieces <= 2305843009213693952
+//@        cores[k] != nil && allocated(cores[k]) && cores[k].pieces >= 1 && cores[k].pieces <= 1099511627776
 
 //@ func (cpuCore) Less
 //@   requires c1 != nil
@@ -59,12 +59,6 @@ package schedule
 //@   requires okHost(oldH) && okHost(newH)
 //@   modifies newH, newH.fullCores[_], newH.fragmentCores[_]
 //@   ensures[C06.reorder,C04,C05] okHost(newH) && newH.shareBase == old(newH.shareBase) && newH.maxFragmentCores == old(newH.maxFragmentCores)
-
-//@ func (*host) getCPUPlans
-//@   trusted
-//@   requires okHost(h) && cpuRequest > 0.0 && cpuRequest <= 1048576.0
-//@   modifies h
-//@   ensures[C06.plans-wf,C04,C05] (arr(result) == 0 || allocated(result))
 
 //@ # ---- whole-core plans (no affinity): `full` distinct cores at a full share each ----
 //@ pred distinctIDs(cores []*cpuCore) = forall a, b :: 0 <= a && a < b && b < len(cores) ==> cores[a].ID != cores[b].ID
@@ -119,6 +113,26 @@ package schedule
 //@     invariant forall a, b :: 0 <= a && a < b && b < len(resourcesToPush) ==> resourcesToPush[a] != resourcesToPush[b] && resourcesToPush[a].ID != resourcesToPush[b].ID
 //@     invariant forall k :: 0 <= k && k < len(result) ==> result[k] != nil && allocated(result[k]) && card(result[k]) == full && msum(result[k]) == full * h.shareBase
 //@                  && forall id string :: id in result[k] ==> result[k][id] == h.shareBase
+
+//@ # every core of the host has its own ID
+//@ pred hostIDs(h *host) = distinctIDs(h.fullCores) && distinctIDs(h.fragmentCores)
+//@        && forall a, b :: 0 <= a && a < len(h.fullCores) && 0 <= b && b < len(h.fragmentCores) ==> h.fullCores[a].ID != h.fragmentCores[b].ID
+
+//@ # getCPUPlans: only the piece arithmetic and what is handed to the planners is claimed here (partial contract);
+//@ # the core-conversion loop and the pairing of full and fragment plans need finite sums over the cores.
+//@ func (*host) getCPUPlans
+//@   partial
+//@   requires okHost(h) && hostIDs(h) && cpuRequest > 0.0 && cpuRequest <= 1048576.0
+//@   modifies h
+//@   # the requested amount in pieces: cpuRequest times the share base, to the nearest piece (reals; the bit-level
+//@   # behaviour of this expression on float64 is the subject of the separate floating-point obligation)
+//@   ensures[C05.pieces,C06]   piecesRequest == roundhalf(cpuRequest * real(old(h.shareBase)))
+//@   ensures[C05.split,C06]    piecesRequest >= 1 ==> full * old(h.shareBase) + fragment == piecesRequest && 0 <= fragment && fragment < old(h.shareBase) && full >= 0
+//@   ensures[C06.subpiece]     piecesRequest <= 0 ==> len(result) == 0
+//@   # whole cores only: the planner is asked for exactly `full` cores per plan
+//@   assert[C05.ask-full] before call getFullCPUPlans#1: arg2 == full && full >= 1 && arg0 == h
+//@   # fraction only: the planner is asked for exactly the fractional pieces per plan
+//@   assert[C05.ask-fragment] before call getFragmentCPUPlans#1: arg2 == fragment && fragment >= 1
 
 //@ # ---- memory admission of one planning round: the plans kept fit into the available memory ----
 //@ func doGetCPUPlans
